@@ -13,11 +13,12 @@ import (
 
 // node of a random operator expression.
 type node struct {
-	op   string // leaf | Union | Intersect | Subtract | Translate
-	kids []*node
-	leaf shape
-	t    v3
-	f    sample.Vec3ToFloat
+	op      string // leaf | Union | Intersect | Subtract | Translate
+	kids    []*node
+	leafIdx int
+	leaf    shape
+	t       v3
+	f       sample.Vec3ToFloat
 }
 
 func (n *node) String() string {
@@ -48,58 +49,83 @@ func (n *node) describe() any {
 	return map[string]any{n.op: ks}
 }
 
-func genTree(r *rand.Rand, depth int, leaves []shape, R float64) *node {
-	if depth == 0 || r.Intn(5) == 0 {
-		s := leaves[r.Intn(len(leaves))]
-		f, _ := polyform(s)
-		return &node{op: "leaf", leaf: s, f: f}
+// genTree draws the structure of an expression; instantiate builds the functions.
+func genTree(r *rand.Rand, depth int, nLeaves int, R float64) *node {
+	if depth == 0 || r.Intn(6) == 0 {
+		return &node{op: "leaf", leafIdx: r.Intn(nLeaves)}
 	}
 	n := &node{}
-	kid := func() *node { return genTree(r, depth-1, leaves, R) }
-	fs := func() []sample.Vec3ToFloat {
-		out := make([]sample.Vec3ToFloat, len(n.kids))
-		for i, k := range n.kids {
-			out[i] = k.f
-		}
-		return out
+	kid := func() *node { return genTree(r, depth-1, nLeaves, R) }
+	arity := func() int { // 1 … 6, with weight on the ≥ 3-operand code paths
+		return []int{1, 2, 2, 3, 3, 3, 4, 4, 5, 6}[r.Intn(10)]
 	}
-	switch pick(r, []int{30, 30, 25, 15}) {
+	switch pick(r, []int{32, 32, 24, 12}) {
 	case 0:
 		n.op = "Union"
-		for k := 1 + r.Intn(4); k > 0; k-- {
+		for k := arity(); k > 0; k-- {
 			n.kids = append(n.kids, kid())
 		}
-		n.f = sdf.Union(fs()...)
 	case 1:
 		n.op = "Intersect"
-		for k := 1 + r.Intn(3); k > 0; k-- {
+		for k := arity(); k > 0; k-- {
 			n.kids = append(n.kids, kid())
 		}
-		n.f = sdf.Intersect(fs()...)
 	case 2:
 		n.op = "Subtract"
 		n.kids = []*node{kid(), kid()}
-		n.f = sdf.Subtract(n.kids[0].f, n.kids[1].f)
 	default:
 		n.op = "Translate"
 		n.kids = []*node{kid()}
 		n.t = v3{(2*r.Float64() - 1) * R, (2*r.Float64() - 1) * R, (2*r.Float64() - 1) * R}
-		n.f = sdf.Translate(n.kids[0].f, pv(n.t))
 	}
 	return n
 }
 
+// instantiate builds a FRESH set of polyform functions for the expression over
+// the given operand solids: every leaf and every operator gets a newly created
+// closure that has never been sampled.
+func (n *node) instantiate(leaves []shape) {
+	if n.op == "leaf" {
+		n.leaf = leaves[n.leafIdx]
+		n.f, _ = polyform(n.leaf)
+		return
+	}
+	fs := make([]sample.Vec3ToFloat, len(n.kids))
+	for i, k := range n.kids {
+		k.instantiate(leaves)
+		fs[i] = k.f
+	}
+	switch n.op {
+	case "Union":
+		n.f = sdf.Union(fs...)
+	case "Intersect":
+		n.f = sdf.Intersect(fs...)
+	case "Subtract":
+		n.f = sdf.Subtract(fs[0], fs[1])
+	case "Translate":
+		n.f = sdf.Translate(fs[0], pv(n.t))
+	}
+}
+
+// frames lists the translation accumulated above every operator node with ≥ 3 operands.
+func (n *node) wideFrames(acc v3, out *[]v3) {
+	if len(n.kids) >= 3 {
+		*out = append(*out, acc)
+	}
+	if n.op == "Translate" {
+		n.kids[0].wideFrames(acc.add(n.t), out)
+		return
+	}
+	for _, k := range n.kids {
+		k.wideFrames(acc, out)
+	}
+}
+
 // leafFrames lists every leaf occurrence with the translation accumulated on the way down.
-func (n *node) leafFrames(acc v3, out *[]struct {
-	s shape
-	t v3
-}) {
+func (n *node) leafFrames(acc v3, out *[]leafFrame) {
 	switch n.op {
 	case "leaf":
-		*out = append(*out, struct {
-			s shape
-			t v3
-		}{n.leaf, acc})
+		*out = append(*out, leafFrame{n.leaf, acc})
 	case "Translate":
 		n.kids[0].leafFrames(acc.add(n.t), out)
 	default:
@@ -203,6 +229,21 @@ func (n *node) checkNodes(res *run.Result, p v3, tol float64, root *node) bool {
 	return true
 }
 
+func negZero() float64 { return math.Copysign(0, -1) }
+
+type pkey [3]uint64
+
+func keyOf(p v3) pkey {
+	return pkey{math.Float64bits(p[0]), math.Float64bits(p[1]), math.Float64bits(p[2])}
+}
+
+// lastSample carries the last point evaluated by the previous case-local function
+// into the next freshly built one ("a point equal to the previous function's last sample").
+type probeState struct {
+	last    v3
+	hasLast bool
+}
+
 func operatorCase(c *run.Ctx) run.Result {
 	var res run.Result
 	r := c.Rng
@@ -212,7 +253,7 @@ func operatorCase(c *run.Ctx) run.Result {
 	L := logU(r, -1.5, 1.5)
 	centre := genPos(r, L)
 	var leaves []shape
-	for k := 2 + r.Intn(3); k > 0; k-- {
+	for k := 3 + r.Intn(4); k > 0; k-- {
 		kind := primKinds[r.Intn(len(primKinds))]
 		s := genShape(r, kind, L)
 		// move the solid near the common centre so that the operands overlap
@@ -221,43 +262,87 @@ func operatorCase(c *run.Ctx) run.Result {
 	}
 	var root *node
 	for root == nil || root.op == "leaf" {
-		root = genTree(r, 1+r.Intn(3), leaves, L)
+		root = genTree(r, 1+r.Intn(3), len(leaves), L)
 	}
+	root.instantiate(leaves)
 	c.Note("operators " + root.String())
-	var frames []struct {
-		s shape
-		t v3
+	collect := func() (frames []leafFrame, base float64) {
+		root.leafFrames(v3{}, &frames)
+		base = 1
+		for _, f := range frames {
+			base = math.Max(base, math.Max(f.s.mag(), f.t.maxAbs()))
+		}
+		return
 	}
-	root.leafFrames(v3{}, &frames)
-	base := 1.0
-	for _, fr := range frames {
-		base = math.Max(base, math.Max(fr.s.mag(), fr.t.maxAbs()))
+	frames, base := collect()
+
+	// Place the world origin strictly inside (or strictly outside) the composed
+	// solid: pick such a point q of the composite and move every operand by -q.
+	wantInside := r.Intn(3) != 0
+	originPlaced := "not-decided"
+	for try := 0; try < 60; try++ {
+		fr := frames[r.Intn(len(frames))]
+		q, _ := samplePoint(r, fr.s)
+		q = q.add(fr.t)
+		tol := 1e-9 * math.Max(base, q.maxAbs())
+		inside, decided := root.member(q, 1000*tol)
+		if !decided || (inside != wantInside && try < 40) {
+			continue
+		}
+		moved := make([]shape, len(leaves))
+		for i, s := range leaves {
+			moved[i] = relocate(s, s.centre().sub(q))
+		}
+		leaves = moved
+		root.instantiate(leaves)
+		frames, base = collect()
+		if in0, dec0 := root.member(v3{}, 1e-9*base); dec0 {
+			originPlaced = map[bool]string{true: "origin-inside", false: "origin-outside"}[in0]
+		}
+		break
 	}
+	res.SetAdd("operator_origin_placement", originPlaced)
+
 	nIn, nOut := 0, 0
+	var st probeState
 	if p := run.Try(func() {
-		for i := 0; i < 600; i++ {
-			fr := frames[r.Intn(len(frames))]
-			q, _ := samplePoint(r, fr.s)
-			p := q.add(fr.t)
-			tol := 1e-9 * math.Max(base, p.maxAbs())
-			if !root.checkNodes(&res, p, tol, root) {
-				return
+		// several fresh instantiations, each first sampled at a different special
+		// point, then one that also receives the bulk of the random samples
+		firstProbes := []string{"origin", "negative-zero", "operand-centre", "previous-last-sample", "wide-operator-frame"}
+		r.Shuffle(len(firstProbes), func(i, j int) { firstProbes[i], firstProbes[j] = firstProbes[j], firstProbes[i] })
+		firstProbes = append([]string{"origin"}, firstProbes...)
+		for round, fp := range firstProbes {
+			root.instantiate(leaves) // fresh closures, never sampled
+			var p0 v3
+			switch fp {
+			case "negative-zero":
+				p0 = v3{negZero(), 0, 0}
+				if r.Intn(2) == 0 {
+					p0 = v3{negZero(), negZero(), negZero()}
+				}
+			case "operand-centre":
+				fr := frames[r.Intn(len(frames))]
+				p0 = fr.s.centre().add(fr.t)
+			case "previous-last-sample":
+				if st.hasLast {
+					p0 = st.last
+				}
+			case "wide-operator-frame":
+				var ws []v3
+				root.wideFrames(v3{}, &ws)
+				if len(ws) > 0 {
+					p0 = ws[r.Intn(len(ws))] // the point that a ≥3-operand node below Translate sees as its own origin
+				}
 			}
-			inside, decided := root.member(p, tol)
-			if !decided {
-				res.Count("operator_points_undecided", 1)
-				continue
+			res.SetAdd("first_probe_kinds", fp)
+			bulk := 0
+			if round == len(firstProbes)-1 {
+				bulk = 600
 			}
-			v := root.f(pv(p))
-			if inside {
-				nIn++
-			} else {
-				nOut++
-			}
-			if (v < 0) != inside {
-				res.Violate("composite-sign", "sdf operators (composite vs reference solids)", root.String(),
-					fmt.Sprintf("expression %s at %v: value %.15g, reference membership in the composed solid: %v", root.String(), p, v, inside),
-					pointWitness{Shape: root.String(), Params: map[string]any{"expression": root.describe()}, P: p, Got: v, Want: map[string]any{"inside": inside}})
+			in, out, ok := probeSequence(r, &res, root, frames, base, p0, fp, bulk, &st)
+			nIn += in
+			nOut += out
+			if !ok {
 				return
 			}
 		}
@@ -269,9 +354,99 @@ func operatorCase(c *run.Ctx) run.Result {
 	res.Nontrivial = nIn > 0 && nOut > 0
 	res.Sig = root.String()
 	if c.Case%101 == 0 {
-		res.Sample = map[string]any{"expression": root.String(), "tree": root.describe()}
+		res.Sample = map[string]any{"expression": root.String(), "tree": root.describe(), "origin": originPlaced}
 	}
 	return res
+}
+
+type leafFrame struct {
+	s shape
+	t v3
+}
+
+// probeSequence samples one freshly instantiated expression: first probe p0 before
+// anything else, then call-history probes (same point twice, A,B,A,B, first probe
+// again), `bulk` random samples, and the history probes once more at the end. Every
+// answer goes through the same oracle — per-node set-operation sign against the
+// node's own operands, composite sign against the reference solids — and, because a
+// function of p cannot depend on what was asked before, every repeated point must
+// get the answer it got the first time.
+func probeSequence(r *rand.Rand, res *run.Result, root *node, frames []leafFrame, base float64, p0 v3, fpKind string, bulk int, st *probeState) (nIn, nOut int, ok bool) {
+	seen := map[pkey]float64{}
+	ask := func(p v3, what string) bool {
+		tol := 1e-9 * math.Max(base, p.maxAbs())
+		// node-level check first: it evaluates root.f(p) before any operand
+		if !root.checkNodes(res, p, tol, root) {
+			return false
+		}
+		v := root.f(pv(p))
+		st.last, st.hasLast = p, true
+		res.Count("operator_probe_answers_"+what, 1)
+		if old, dup := seen[keyOf(p)]; dup {
+			res.Count("operator_repeated_point_answers", 1)
+			if old != v && !(math.IsNaN(old) && math.IsNaN(v)) {
+				res.Violate("history-dependent", "sdf operators (same point, different answers)", root.String(),
+					fmt.Sprintf("expression %s at %v answered %.17g earlier and %.17g now [%s, first probe kind %s]", root.String(), p, old, v, what, fpKind),
+					pointWitness{Shape: root.String(), Params: map[string]any{"expression": root.describe()}, P: p, Got: v, Want: old, Class: what})
+				return false
+			}
+		} else {
+			seen[keyOf(p)] = v
+		}
+		inside, decided := root.member(p, tol)
+		if !decided {
+			res.Count("operator_points_undecided", 1)
+			return true
+		}
+		if inside {
+			nIn++
+		} else {
+			nOut++
+		}
+		if what == "first-probe" {
+			if inside {
+				res.Count("first_probes_strictly_inside", 1)
+			} else {
+				res.Count("first_probes_strictly_outside", 1)
+			}
+		}
+		if (v < 0) != inside {
+			res.Violate("composite-sign", "sdf operators (composite vs reference solids)", root.String(),
+				fmt.Sprintf("expression %s at %v: value %.15g, reference membership in the composed solid: %v [%s, first probe kind %s]", root.String(), p, v, inside, what, fpKind),
+				pointWitness{Shape: root.String(), Params: map[string]any{"expression": root.describe()}, P: p, Got: v, Want: map[string]any{"inside": inside}, Class: what})
+			return false
+		}
+		return true
+	}
+	pt := func() v3 {
+		fr := frames[r.Intn(len(frames))]
+		q, _ := samplePoint(r, fr.s)
+		return q.add(fr.t)
+	}
+	if !ask(p0, "first-probe") || !ask(p0, "same-point-twice") {
+		return
+	}
+	a, b := pt(), pt()
+	history := func() bool {
+		for _, q := range []v3{a, a, b, a, b, p0, v3{}, p0} {
+			if !ask(q, "call-history") {
+				return false
+			}
+		}
+		return true
+	}
+	if !history() {
+		return
+	}
+	for i := 0; i < bulk; i++ {
+		if !ask(pt(), "random") {
+			return
+		}
+	}
+	if bulk > 0 && !history() {
+		return
+	}
+	return nIn, nOut, true
 }
 
 // relocate moves a reference solid so that its centre is at c.
@@ -305,7 +480,7 @@ func varyingLineCase(c *run.Ctx) run.Result {
 	var res run.Result
 	r := c.Rng
 	L := logU(r, -1.5, 1.5)
-	n := 2 + r.Intn(4)
+	n := 2 + r.Intn(6)
 	pts := []v3{genPos(r, L)}
 	rad := []float64{L * logU(r, -1.5, 0)}
 	for len(pts) < n {
@@ -318,6 +493,27 @@ func varyingLineCase(c *run.Ctx) run.Result {
 			nr = prev
 		}
 		rad = append(rad, nr)
+	}
+	// place the world origin strictly inside (2/3) or outside the union of hulls
+	{
+		var tmp []cone
+		for i := 1; i < n; i++ {
+			tmp = append(tmp, cone{a: pts[i-1], b: pts[i], r1: rad[i-1], r2: rad[i]})
+		}
+		wantIn := r.Intn(3) != 0
+		for try := 0; try < 40; try++ {
+			q, _ := samplePoint(r, tmp[r.Intn(len(tmp))])
+			m := math.Inf(1)
+			for _, k := range tmp {
+				m = math.Min(m, k.margin(q))
+			}
+			if math.Abs(m) > 1e-6*math.Max(1, q.maxAbs()) && ((m < 0) == wantIn || try >= 30) {
+				for i := range pts {
+					pts[i] = pts[i].sub(q)
+				}
+				break
+			}
+		}
 	}
 	var cones []cone
 	lps := make([]sdf.LinePoint, n)
@@ -335,8 +531,17 @@ func varyingLineCase(c *run.Ctx) run.Result {
 	nIn, nOut := 0, 0
 	if p := run.Try(func() {
 		f := sdf.VarryingThicknessLine(lps)
+		seen := map[pkey]float64{}
+		pa, _ := samplePoint(r, cones[r.Intn(len(cones))])
+		head := []v3{{}, {}, pa, pa, {}, pa}
 		for i := 0; i < 800; i++ {
 			p, _ := samplePoint(r, cones[r.Intn(len(cones))])
+			switch {
+			case i < len(head): // first sample of the fresh function: the world origin
+				p = head[i]
+			case i >= 798:
+				p = head[i-798]
+			}
 			tol := 1e-9 * math.Max(base, p.maxAbs())
 			m := math.Inf(1)
 			for _, k := range cones {
@@ -344,6 +549,23 @@ func varyingLineCase(c *run.Ctx) run.Result {
 			}
 			v := f(pv(p))
 			res.Count("varying_line_points", 1)
+			if old, dup := seen[keyOf(p)]; dup {
+				if old != v {
+					res.Violate("history-dependent", "sdf.VarryingThicknessLine", fmt.Sprintf("%d points", n),
+						fmt.Sprintf("p=%v answered %.17g earlier and %.17g now", p, old, v),
+						pointWitness{Shape: "varying-thickness-line", Params: map[string]any{"points": pts, "radii": rad}, P: p, Got: v, Want: old})
+					return
+				}
+			} else {
+				seen[keyOf(p)] = v
+			}
+			if i == 0 {
+				if m < -tol {
+					res.Count("first_probes_strictly_inside", 1)
+				} else if m > tol {
+					res.Count("first_probes_strictly_outside", 1)
+				}
+			}
 			switch {
 			case m < -tol:
 				nIn++
